@@ -163,6 +163,8 @@ SWC_PID = r"-?[0-9]+"
 NUMBER_CHARS = r"[+\-.0-9eE]"
 # decimal number of the ASC format: sign, digits with an optional point, exponent
 ASC_NUMBER = r"[-+]?(?:\d+\.?\d*|\.\d+)(?:[eE][-+]?\d+)?"
+# integers and decimals as Neurolucida writes them
+PLAIN_DECIMAL = r"-?(?:0|[1-9][0-9]*)(?:\.[0-9]+)?"
 
 
 def L(text):
@@ -330,12 +332,17 @@ def asc_facts():
     out = [
         subset("number-pattern-converts", Pn.fullmatch(), fl_ok, "a word that IS a number (matches RE_FLOAT entirely) is within the argument grammar of float()"),
         subset("number-pattern-is-a-decimal-number", Pn.fullmatch(), L(ASC_NUMBER), "RE_FLOAT spells decimal numbers only (sign, digits, point, exponent)"),
-        subset("plain-decimal-numbers-are-numbers", L(r"-?(?:0|[1-9][0-9]*)(?:\.[0-9]+)?"), z3.Intersect(Pn.fullmatch(), hitw),
+        subset("plain-decimal-numbers-are-numbers", L(PLAIN_DECIMAL), z3.Intersect(Pn.fullmatch(), hitw),
                "integers and decimals as Neurolucida writes them are words that pass the number test"),
         # defect found here and FIXED in /repo (known_findings.jsonl): the Lexer applied RE_FLOAT.match (a PREFIX test): a word like '1_0' or '1٣' passes it, float() accepts it
         # (10.0 / 13.0 -- the second one is tolerated by the reference, which allows any Unicode decimal digit) and a malformed point is converted instead of rejected.
         subset("number-token-is-entirely-a-number", z3.Intersect(hitw, fl_ok), L(ASC_NUMBER),
                "a word that passes the Lexer's number test AND that float() converts (i.e. a word that becomes a FLOAT token) is a decimal number in its entirety"),
+    ]
+    # reference-language facts the Lexer contract (contracts/C15.py, Lexer.__next__) uses as transfer lemmas between language predicates
+    out += [
+        subset("asc-number-converts", L(ASC_NUMBER), fl_ok, "every decimal number of the ASC format is within the argument grammar of float(): converting one cannot raise"),
+        subset("plain-decimal-is-an-asc-number", L(PLAIN_DECIMAL), L(ASC_NUMBER), "integers and decimals as Neurolucida writes them are decimal numbers of the format"),
     ]
     for w in ("1,5", "1.2.3", "2.5E-", "3.5mm", "1e", "-", ".", "e5"):
         s = RZ.zstr(w)
